@@ -43,6 +43,8 @@ from workflows.runtime.types.plugin import (
     WaitResultTick,
 )
 from workflows.runtime.types.ticks import (
+    TickAddEvent,
+    TickCancelRun,
     TickIdleRelease,
     WorkflowTick,
     WorkflowTickAdapter,
@@ -123,10 +125,24 @@ class DBOSIdleReleaseExternalRunAdapter(BaseExternalRunAdapterDecorator):
                 await self._decorated.send_event(tick)
                 return
             if result == RunLifecycleState.released:
-                await self._runtime._do_resume(self.run_id, pending_tick=tick)
+                if isinstance(tick, TickAddEvent):
+                    await self._runtime._do_resume(self.run_id, pending_tick=tick)
+                else:
+                    # A control tick (cancel_run, ...) acts through the commands it
+                    # produces; folding it into the rebuilt state would drop them.
+                    # Resume first, then hand it to the live control loop.
+                    _, adapter = await self._runtime._do_resume(self.run_id)
+                    await adapter.send_event(tick)
                 return
             # releasing — poll until it completes or times out
             await asyncio.sleep(0.5)
+
+    @override
+    async def cancel(self) -> None:
+        # The inherited cancel() goes straight to the inner adapter; a released run
+        # would never see it. Deliver the cancellation like any other tick, so that
+        # the run is resumed first.
+        await self.send_event(TickCancelRun())
 
 
 class DBOSIdleReleaseDecorator(BaseRuntimeDecorator):
